@@ -11,6 +11,12 @@ TB = ("Coq 8.16.1 kernel (+vm_compute); no axioms of our own (Print Assumptions 
       "tied by regeneration/correspondence on the cases run")
 
 CHECKS = {
+    "C01": dict(
+        engine="E5 source / E4 verifier / E1 gc",
+        technique="Coq theorems restated from the verifier (frame discipline on all paths), the collector model (reachable cells never reclaimed, allocation never hands out a cell in use) [+ evaluator type safety for the core when proved]; crash oracle: every accepted corpus/generated program under ASan+UBSan+asserts across heap/stack configurations",
+        text="proof (partial by nature): the logic that an executable model can carry is proved — no stack-shape crash on any path of verified code, collector and allocator safety; that the C handlers do at the byte level what the models say is observed by sanitizers and the tree's own tag asserts on the cases run (every accepted program x several heap/stack sizes), never presented as proof",
+        ref="DESIGN.md §5 C01",
+        note=TB + "; byte-level memory safety of the C handlers is observed (ASan/UBSan/asserts), not proved: no C semantics (VST/CompCert) in this sandbox"),
     "C09": dict(
         engine="E1 gc",
         technique="Coq proof of heap-bookkeeping invariants and exact collection over all operation histories of a model of gc.c; op-history correspondence (exact addresses, lists, marks, objects) with the real gc.c + property oracle on the real heap",
